@@ -10,6 +10,7 @@ from hypothesis import strategies as st
 
 from vlib import world as W
 from vlib import simbus
+from vlib import simkernel as sk
 
 NCB = 3
 EPS_GRID = [0.0, 1e-6, 1e-5, 1e-4]
@@ -34,8 +35,11 @@ def _ops(regime):
         add = st.tuples(st.sampled_from(per), st.booleans()).map(lambda x: (x[0], x[1] and x[0] >= 0.05))
     else:
         add = st.tuples(st.sampled_from(per), periodic)
-    op_add = st.builds(lambda g, c, a, x: {"gap": g, "op": "add", "cb": c, "p": a[0], "per": a[1], "ctx": x},
-                       gap, cb, add, ctx)
+    # run time of the callback (virtual): mostly zero; always well below the shortest period of the regime
+    durs = [0.0, 0.0, 0.0, 0.0, 0.0001, 0.0003] if regime == "fast" else [0.0, 0.0, 0.0, 0.0, 0.001, 0.005, 0.02]
+    op_add = st.builds(lambda g, c, a, x, du: {"gap": g, "op": "add", "cb": c, "p": a[0], "per": a[1], "ctx": x,
+                                               "dur": du if du < a[0] / 2 else 0.0},
+                       gap, cb, add, ctx, st.sampled_from(durs))
     op_rm = st.builds(lambda g, c, x: {"gap": g, "op": "rm", "cb": c, "ctx": x}, gap, cb, ctx)
     op_sub = st.builds(lambda g, c, x: {"gap": g, "op": "sub", "cb": c, "ctx": x}, gap, cb, ctx)
     op_unsub = st.builds(lambda g, c, x: {"gap": g, "op": "unsub", "cb": c, "ctx": x}, gap, cb, ctx)
@@ -78,7 +82,8 @@ class C12:
             "0..100 us incl. exactly 0) and runs them on a real ECU in virtual time; non-trivial = at least two "
             "registrations alive at the same instant; distinct = distinct parameter sets")
     ASSUMPTIONS = [
-        "callbacks take zero virtual time and never raise",
+        "callbacks never raise; they take zero virtual time or a generated run time well below half their own period, during "
+        "which the job thread is busy (lateness caused by a busy job thread is not a violation)",
         "timed waits return at or after their deadline, never early (lateness 0..100 us generated)",
         "code runs atomically between blocking points (line-level pre-emption is C08's subject)",
     ]
@@ -120,6 +125,7 @@ class C12:
         scalls = []        # (t, seq, cb, probe)
         pending = {i: [] for i in range(NCB)}    # ops waiting for the next call of timer cb i
         in_cb_ops = []     # (seq, op) executed inside callbacks
+        busy = []          # [start, end] of callback executions that take time
         executed = []
         cur_probe = [None]
         probe_dirty = set()
@@ -135,7 +141,7 @@ class C12:
             if kind == "add":
                 rid = len(regs)
                 regs.append({"id": rid, "cb": op["cb"], "p": op["p"], "per": op["per"], "t": sim.now,
-                             "seq": s, "rm": None, "calls": []})
+                             "seq": s, "rm": None, "calls": [], "dur": op.get("dur", 0.0)})
                 ecu.add_timer(op["p"], tcb[op["cb"]], rid)
             elif kind == "rm":
                 ecu.remove_timer(tcb[op["cb"]])
@@ -167,6 +173,10 @@ class C12:
                 if isinstance(cookie, int) and 0 <= cookie < len(regs):
                     regs[cookie]["calls"].append((sim.now, s))
                     per = regs[cookie]["per"]
+                    du = regs[cookie]["dur"]
+                    if du > 0:
+                        busy.append((sim.now, sim.now + du))
+                        sk.FAKE_TIME.sleep(du)          # the callback takes time: the job thread is busy meanwhile
                 else:
                     per = False
                 if len(calls) > 200000:
@@ -231,40 +241,85 @@ class C12:
             live += d
             max_live = max(max_live, live)
 
+        busy.sort()
+        # the eps of a sleep inside a callback makes the callback end late, never early
+        busy_ext = [(a, b + max(params["eps"]) + 2e-6) for (a, b) in busy]
+
+        def justified(d, c):
+            """Is a call at time c for a deadline d explained by scheduling latency plus time during which the job
+            thread was busy running other (or its own earlier) callbacks?"""
+            x = d
+            changed = True
+            while changed:
+                changed = False
+                for (a, b) in busy_ext:
+                    if a <= x + L + tol and b > x:
+                        x = b
+                        changed = True
+            return c <= x + L + tol
+
         if not any(k.startswith("liveness") for k in [v["kind"] for v in viol]):
             for r in regs:
                 p = r["p"]
                 ctxs = "cb" if any(e[4] >= 0 for e in executed) else "app"
                 shape = "%s|%s" % ("periodic" if r["per"] else "oneshot", ctxs)
+                if busy:
+                    shape += "|slow-cb"
                 rm_t, rm_s = r["rm"] if r["rm"] else (None, None)
-                for k, (ct, cs) in enumerate(r["calls"]):
+                limit = t_end if rm_t is None else min(rm_t, t_end)
+                prev_k = 0
+                bad = False
+                for n_call, (ct, cs) in enumerate(r["calls"]):
                     if rm_s is not None and cs > rm_s:
                         V("called-after-remove", "timer cb%d (registration %d, period %g) called at t=%.6f after "
                           "remove_timer returned at t=%.6f" % (r["cb"], r["id"], p, ct - 1000, rm_t - 1000), shape)
+                        bad = True
                         break
-                    if not r["per"] and k >= 1:
+                    if not r["per"] and n_call >= 1:
                         V("oneshot-called-again", "one-shot cb%d (registration %d) called %d times" %
                           (r["cb"], r["id"], len(r["calls"])), shape)
+                        bad = True
                         break
-                    d = r["t"] + (k + 1) * p
-                    if ct < d - tol:
-                        V("early", "cb%d registration %d call #%d at t=%.9f, due %.9f (period %g, registered %.9f)"
-                          % (r["cb"], r["id"], k + 1, ct - 1000, d - 1000, p, r["t"] - 1000), shape)
+                    # the deadline this call answers: the latest one not after the call
+                    k = int((ct - r["t"] + tol) / p)
+                    while r["t"] + (k + 1) * p <= ct + tol:
+                        k += 1
+                    while k >= 1 and r["t"] + k * p > ct + tol:
+                        k -= 1
+                    if k < 1:
+                        V("early", "cb%d registration %d called at t=%.9f, %.9f s after its registration, period %g"
+                          % (r["cb"], r["id"], ct - 1000, ct - r["t"], p), shape)
+                        bad = True
                         break
-                    if ct > d + L + tol:
-                        V("late", "cb%d registration %d call #%d at t=%.9f, due %.9f, allowed lateness %.3g "
-                          "(period %g)" % (r["cb"], r["id"], k + 1, ct - 1000, d - 1000, L, p), shape)
+                    if k <= prev_k:
+                        V("early", "cb%d registration %d (period %g, registered %.9f) called again at t=%.9f for the period already "
+                          "served (call #%d): early or drifting" % (r["cb"], r["id"], p, r["t"] - 1000, ct - 1000, n_call + 1), shape)
+                        bad = True
                         break
-                else:
-                    # missing calls
-                    limit = t_end if rm_t is None else min(rm_t, t_end)
-                    n_have = len(r["calls"])
-                    d_next = r["t"] + (n_have + 1) * p
-                    if (r["per"] or n_have == 0) and d_next + L + tol < limit:
-                        V("missing", "cb%d registration %d (period %g, %s, registered t=%.6f) has %d calls; call #%d "
-                          "was due at t=%.6f and never happened before t=%.6f" %
-                          (r["cb"], r["id"], p, "periodic" if r["per"] else "one-shot", r["t"] - 1000, n_have,
-                           n_have + 1, d_next - 1000, limit - 1000), shape)
+                    d = r["t"] + k * p
+                    if not justified(d, ct):
+                        V("late", "cb%d registration %d call #%d at t=%.9f, due %.9f, allowed lateness %.3g plus time the job thread "
+                          "was busy in callbacks (period %g)" % (r["cb"], r["id"], n_call + 1, ct - 1000, d - 1000, L, p), shape)
+                        bad = True
+                        break
+                    for ks in range(prev_k + 1, k):          # skipped periods must be explained by a busy job thread
+                        if not justified(r["t"] + ks * p, ct):
+                            V("missing", "cb%d registration %d (period %g): the call due at t=%.6f never happened (next call at "
+                              "t=%.6f)" % (r["cb"], r["id"], p, r["t"] + ks * p - 1000, ct - 1000), shape)
+                            bad = True
+                            break
+                    if bad:
+                        break
+                    prev_k = k
+                if not bad and (r["per"] or not r["calls"]):
+                    # calls still owed at the end of the observation / at removal
+                    ks = prev_k + 1
+                    d_next = r["t"] + ks * p
+                    if d_next + L + tol < limit and not justified(d_next, limit):
+                        V("missing", "cb%d registration %d (period %g, %s, registered t=%.6f) has %d calls; the call due at "
+                          "t=%.6f never happened before t=%.6f" %
+                          (r["cb"], r["id"], p, "periodic" if r["per"] else "one-shot", r["t"] - 1000, len(r["calls"]),
+                           d_next - 1000, limit - 1000), shape)
             # subscriptions
             for (ct, cs, i, pid) in scalls:
                 active = [r for r in subs if r["cb"] == i and r["seq"] < cs and (r["rm"] is None or r["rm"][1] > cs)]
@@ -292,6 +347,8 @@ class C12:
             labels.append("eps-zero")
         if max_live >= 2:
             labels.append("two-live")
+        if busy:
+            labels.append("slow-callback")
         return {"violations": viol, "labels": labels, "nontrivial": max_live >= 2,
                 "sample": {"ops": params["ops"], "eps": params["eps"], "timer_calls": len(calls)}}
 
